@@ -42,7 +42,7 @@ var configs = []string{"default", "noregpool", "nocontpool", "noregpool+nocontpo
 const (
 	cfgDefault  = 0
 	cfgNoQuotas = 4
-	batchSize   = 48
+	batchSize   = 96
 	restartAt   = 4000 // programs served before a runner is recycled (abandoned coroutines are parked goroutines)
 	// A program costs milliseconds (CPU limit 5e6 in every accounting
 	// configuration); a runner silent for this long on one program is hung.
@@ -307,17 +307,43 @@ var (
 	emptyTrace   = []byte(`"trace":[]}`)
 )
 
+// runBatch runs every item in every configuration.  Each runner is fed in a
+// pipeline (a writer goroutine sends the requests ahead, the reader collects
+// the responses in order) so that a runner never waits for the worker to be
+// scheduled.  When a runner dies or hangs, the item whose response was due is
+// the program in flight; the items after it are sent again to a new runner.
 func (p *pool) runBatch(items []*item) {
 	var wg sync.WaitGroup
 	for ci := range configs {
 		wg.Add(1)
 		go func(ci int) {
 			defer wg.Done()
-			r := p.runners[ci]
-			if r.served >= restartAt {
-				r.stop()
+			p.runCfg(ci, items)
+		}(ci)
+	}
+	wg.Wait()
+}
+
+func (p *pool) runCfg(ci int, items []*item) {
+	r := p.runners[ci]
+	if r.served >= restartAt {
+		r.stop()
+	}
+	pos, spontaneous := 0, 0
+	for pos < len(items) {
+		if r.cmd == nil {
+			if err := r.start(); err != nil {
+				fmt.Fprintln(os.Stderr, "c14:", err)
+				os.Exit(2)
 			}
-			for _, it := range items {
+		}
+		sent := make(chan int, len(items))
+		in := r.in
+		wpos, wfailed := len(items), false // where the writer stopped (valid once sent is closed)
+		go func(from int) {
+			defer close(sent)
+			for k := from; k < len(items); k++ {
+				it := items[k]
 				if it.skip {
 					continue
 				}
@@ -329,14 +355,59 @@ func (p *pool) runBatch(items []*item) {
 						continue
 					}
 				}
-				it.lines[ci], it.died[ci] = r.roundtrip(it.req)
-				if ci == cfgDefault {
-					close(it.defDone)
+				if _, err := in.Write(it.req); err != nil {
+					wpos, wfailed = k, true // runner gone
+					return
 				}
+				sent <- k
 			}
-		}(ci)
+		}(pos)
+		failed := false
+		for k := range sent {
+			if failed {
+				continue // drain: these are sent again
+			}
+			it := items[k]
+			r.served++
+			r.out.SetReadDeadline(time.Now().Add(programTimeout))
+			line, err := r.rd.ReadBytes('\n')
+			if err != nil {
+				kind := "exited"
+				if errors.Is(err, os.ErrDeadlineExceeded) {
+					kind = fmt.Sprintf("hang>%ds", int(programTimeout.Seconds()))
+				}
+				it.died[ci] = kind + ": " + crashLine(r.kill())
+				failed = true
+			} else {
+				it.lines[ci] = bytes.TrimRight(line, "\n")
+			}
+			if ci == cfgDefault {
+				close(it.defDone)
+			}
+			pos = k + 1
+		}
+		if failed {
+			continue
+		}
+		if !wfailed {
+			break
+		}
+		// The runner went away although no response was due (it died between
+		// two programs): start another one and send the rest again; a program
+		// that cannot even be handed over three times is reported.
+		msg := crashLine(r.kill())
+		spontaneous++
+		pos = wpos
+		if spontaneous >= 3 {
+			it := items[wpos]
+			it.died[ci] = "runner keeps dying before reading the program: " + msg
+			if ci == cfgDefault {
+				close(it.defDone)
+			}
+			pos = wpos + 1
+			spontaneous = 0
+		}
 	}
-	wg.Wait()
 }
 
 // fresh runs one program in a newly started runner process of configuration ci.
@@ -492,7 +563,10 @@ func judge(fam string, it *item) core.Outcome {
 type famRunner struct {
 	src   source
 	cache map[uint64]core.Outcome
+	pre   []*item // next batch, rendered while the runners were busy
 }
+
+var timing = os.Getenv("C14_TIMING") != ""
 
 var (
 	thePool *pool
@@ -500,14 +574,7 @@ var (
 	batch          = 1
 )
 
-func (fr *famRunner) run(i uint64) core.Outcome {
-	if o, ok := fr.cache[i]; ok {
-		delete(fr.cache, i)
-		return o
-	}
-	if thePool == nil {
-		thePool = newPool()
-	}
+func (fr *famRunner) gen(i uint64) []*item {
 	var items []*item
 	for j := i; j < fr.src.size && len(items) < batch; j += stride {
 		it := fr.src.at(j)
@@ -518,13 +585,40 @@ func (fr *famRunner) run(i uint64) core.Outcome {
 		}
 		it.idx = j
 		items = append(items, it)
-		if core.Expired() {
-			break
-		}
 	}
-	thePool.runBatch(items)
+	return items
+}
+
+func (fr *famRunner) run(i uint64) core.Outcome {
+	if o, ok := fr.cache[i]; ok {
+		delete(fr.cache, i)
+		return o
+	}
+	if thePool == nil {
+		thePool = newPool()
+	}
+	var items []*item
+	if len(fr.pre) > 0 && fr.pre[0].idx == i {
+		items = fr.pre
+	} else {
+		items = fr.gen(i)
+	}
+	fr.pre = nil
+	done := make(chan struct{})
+	t0 := time.Now()
+	go func() { thePool.runBatch(items); close(done) }()
+	// while the runners work, render the next batch
+	if next := items[len(items)-1].idx + stride; next < fr.src.size && !core.Expired() && batch > 1 {
+		fr.pre = fr.gen(next)
+	}
+	t1 := time.Now()
+	<-done
+	t2 := time.Now()
 	for _, it := range items {
 		fr.cache[it.idx] = judge(fr.src.name, it)
+	}
+	if timing {
+		fmt.Fprintf(os.Stderr, "c14 timing: batch of %d at %d: pre-render %v, runners %v, judge %v\n", len(items), i, t1.Sub(t0), t2.Sub(t0), time.Since(t2))
 	}
 	o := fr.cache[i]
 	delete(fr.cache, i)
@@ -539,18 +633,31 @@ func quickStride(name string) uint64 {
 	switch name {
 	case "F1-scope-closure", "F2-call-protocol":
 		return 3
-	case "F3-jumps-nested", "F3-jumps-free", "F4-binary":
-		return 2 + 1 // 3
 	}
 	return 1
 }
 
+// budget is the wall-time cap of a family in seconds: about three times what
+// the family needs on an idle 16 core machine (estimated from 1 ms per golua
+// run; six runs per program).  On a loaded machine the large families hit the
+// cap and the run reports exhaustive=false.
 func budget(tier, fam string) int {
+	b := budget1(tier, fam)
+	// development aid: C14_BUDGET_SCALE=10 to let a loaded machine finish
+	if k, err := strconv.Atoi(os.Getenv("C14_BUDGET_SCALE")); err == nil && k > 0 {
+		b *= k
+	}
+	return b
+}
+
+func budget1(tier, fam string) int {
 	if tier != "thorough" {
 		switch fam {
-		case "P-F1-scope-closure", "P-F2-call-protocol":
+		case "P-F2-call-protocol", "P-F3-jumps-nested":
 			return 70
-		case "P-F3-jumps-free", "P-F3-jumps-nested", "P-F4-binary", "P-F6-multiple-assignment":
+		case "P-F1-scope-closure":
+			return 60
+		case "P-F3-jumps-free", "P-F4-binary", "P-F6-multiple-assignment":
 			return 45
 		case "T-pool-templates":
 			return 120
@@ -558,9 +665,11 @@ func budget(tier, fam string) int {
 		return 25
 	}
 	switch fam {
-	case "P-F1-scope-closure-len5", "P-F3-jumps-free":
+	case "P-F1-scope-closure-len5":
+		return 400
+	case "P-F3-jumps-free", "P-F3-jumps-nested":
 		return 330
-	case "P-F3-jumps-nested", "P-F8-trees":
+	case "P-F8-trees":
 		return 240
 	case "P-F2-call-protocol", "P-F1-scope-closure":
 		return 150
@@ -607,7 +716,7 @@ func main() {
 	core.Main(&core.Check{
 		ID:    "C14",
 		Level: "model_checking",
-		Rule: "every program of the corpus (progfam families F1..F9 rendered plain; quick tier: every 3rd index of the five largest families; " +
+		Rule: "every program of the corpus (progfam families F1..F9 rendered plain; quick tier: every 3rd index of the two largest families F1, F2; " +
 			"pool-boundary templates x every depth d in {1..12, pool sizes and twice the pool sizes +-1, 102, 110}; stale-register probes k=1..14 x 8 variants) " +
 			"is run in a fresh runtime by six golua builds (default, noregpool, nocontpool, noregpool+nocontpool, noquotas, safepool) and the canonical observations " +
 			"(status, emit trace incl. finalizers run at close, results, error value) must be byte-identical; non-trivial = emits something or does not end ok; distinct = distinct baseline observations",
